@@ -1,4 +1,5 @@
 //! firv: runtime monitors for fast_image_resize (see /verif/DESIGN.md).
+pub mod containers;
 pub mod content;
 pub mod exec;
 pub mod px;
